@@ -170,7 +170,7 @@ func C20(r *drv.Run) {
 		ntrees, npat = 400, 150
 		plen = 5
 	}
-	r.Rule = fmt.Sprintf("exhaustive: every pattern of length <= %d over {a,b,.,*} with at most 3 stars x a directory holding every name of length <= 4 over {a,b,.} (118 files) and 3 sub-directories with matching names; generated trees of depth <= 3 (names such as a.txt.txt, abxb, .a, and names containing ? [ ] + { } blank backslash, which only '*' may treat specially) with relative and absolute multi-segment patterns, the trees also holding symbolic links to sibling directories and files and regular files with unusual permission bits (000, 200, 111). The selection is also observed end to end: the built command line tool run inside some of the trees with `find top 1 any` (every file holds one byte), alone, with -profile naming a file OUTSIDE the tree that is called like a file inside it, with -replace-mode plus a JSON output file, and with an absolute pattern into a sibling directory whose name begins like the working directory's; the set of file names in its JSON output must be the same set. Every parsed pattern is asked twice (and once from another directory in between): same answer. A working directory reached through a link and back (a/l/.. with l pointing elsewhere; decoys at the textually cleaned place; entries that are links to a file and to a directory): six patterns. Characters that are separators, escapes or wildcards elsewhere (backslash ? [ ] { } ! ^ ~ : ; , percent dollar hash ampersand blank tab quotes | + ( ) =) inside the PATTERN: a directory holding names with each of them and sub-directories called like what stands in front of the character, eleven patterns per character, relative and absolute; ten patterns with doubled, tripled and quadrupled separators behind literal segments (every selected file listed once). Crowded and deep directories: one directory holding 255..4 097 (thorough ..20 011) entries, counts on both sides of 256, 1 024, 2 048, 4 096, files and sub-directories mixed, among them names with the bytes 0xFF, 0xFE, 0x80, 0x7F, 0x01 and a letter in Latin-1 and in UTF-8, asked with wildcard and literal last and middle segments (also with two more segments behind a wildcard that matches thousands of plain files), while the worker may hold 128 file descriptors, and a chain of twelve directory levels asked literally and star by star; floor: a list of more than 2 048 files compared. Oracle: reference glob (segment-wise, backtracking '*') over the harness's own record of the tree; result sets compared after filepath.Clean; duplicates and listed directories are violations. Non-trivial = pattern containing '*' that selects a non-empty proper subset; distinct by (tree, pattern).", plen)
+	r.Rule = fmt.Sprintf("exhaustive: every pattern of length <= %d over {a,b,.,*} with at most 3 stars x a directory holding every name of length <= 4 over {a,b,.} (118 files) and 3 sub-directories with matching names; generated trees of depth <= 3 (names such as a.txt.txt, abxb, .a, and names containing ? [ ] + { } blank backslash, which only '*' may treat specially) with relative and absolute multi-segment patterns, the trees also holding symbolic links to sibling directories and files and regular files with unusual permission bits (000, 200, 111). The selection is also observed end to end: the built command line tool run inside some of the trees with `find top 1 any` (every file holds one byte), alone, with -profile naming a file OUTSIDE the tree that is called like a file inside it, with -replace-mode plus a JSON output file, and with an absolute pattern into a sibling directory whose name begins like the working directory's; the set of file names in its JSON output must be the same set. Every parsed pattern is asked twice (and once from another directory in between): same answer. A working directory reached through a link and back (a/l/.. with l pointing elsewhere; decoys at the textually cleaned place; entries that are links to a file and to a directory): six patterns. Characters that are separators, escapes or wildcards elsewhere (backslash ? [ ] { } ! ^ ~ : ; , percent dollar hash ampersand blank tab quotes | + ( ) =) inside the PATTERN: a directory holding names with each of them and sub-directories called like what stands in front of the character, eleven patterns per character, relative and absolute; ten patterns with doubled, tripled and quadrupled separators behind literal segments (every selected file listed once). Crowded and deep directories: one directory holding 255..4 097 (thorough ..20 011) entries, counts on both sides of 256, 1 024, 2 048, 4 096, files and sub-directories mixed, among them names with the bytes 0xFF, 0xFE, 0x80, 0x7F, 0x01 and a letter in Latin-1 and in UTF-8, asked with wildcard and literal last and middle segments (also with two more segments behind a wildcard that matches thousands of plain files), while the worker may hold 128 file descriptors, and a chain of twelve (in one tree 70, in another 130) directory levels asked literally and wildcard by wildcard (s* per level in the deep ones); floor: a list of more than 2 048 files compared. Oracle: reference glob (segment-wise, backtracking '*') over the harness's own record of the tree; result sets compared after filepath.Clean; duplicates and listed directories are violations. Non-trivial = pattern containing '*' that selects a non-empty proper subset; distinct by (tree, pattern).", plen)
 	r.Assumptions = []string{
 		"excluded as the property says: directory segments made only of stars, '.' and '..' segments",
 		"a doubled separator counts as one (as in any path); a trailing separator leaves an empty LAST segment, which matches only the empty name, i.e. no file",
@@ -386,13 +386,26 @@ func C20(r *drv.Run) {
 			tree.kids = append(tree.kids, deep)
 			cur, curPath := deep, filepath.Join(base, "deep")
 			lit, stars := "deep", "deep"
-			for l := 1; l <= 12; l++ {
+			levels := 12
+			switch n {
+			case 255:
+				levels = 70 // (well past 40 levels below the root of the file system)
+			case 1023:
+				levels = 130
+			}
+			for l := 1; l <= levels; l++ {
 				nm := fmt.Sprintf("s%d", l)
 				k := &refNode{name: nm, dir: true}
 				cur.kids = append(cur.kids, k)
 				cur, curPath = k, filepath.Join(curPath, nm)
 				lit += "/" + nm
-				stars += "/*"
+				if levels > 12 {
+					// (a directory segment made only of stars also applies the rest of the pattern to the same directory -
+					// the property excludes such segments, and seventy of them are 2^70 ways)
+					stars += "/s*"
+				} else {
+					stars += "/*"
+				}
 			}
 			os.MkdirAll(curPath, 0o755)
 			os.WriteFile(filepath.Join(curPath, "leaf.txt"), []byte("x"), 0o644)
